@@ -1,6 +1,7 @@
 """C09 — concurrent builds of the same kernels all succeed and agree (Hypothesis-generated schedules, real processes)."""
 import json
 import os
+import re
 import shutil
 import subprocess
 import sys
@@ -14,6 +15,8 @@ from props import REGISTRY
 PROP = "C09"
 POLL = 0.002
 MAX_POLLS = 300000        # watchdog only (10 min); never decides a verdict by itself
+HOLD_POLLS = 20000        # how long the driver looks for the leader inside its held call before releasing the others anyway
+SYSCALL_NR = {"mkdir": 83, "rename": 82, "fsync": 74}     # x86_64
 
 
 class HarnessError(Exception):
@@ -43,20 +46,22 @@ def schedule_strategy():
             st.builds(stepped, st.just("write"), st.integers(500, us_step), where, st.integers(20, 190), st.integers(1, 3)),
             st.builds(stepped, st.just("close"), st.integers(500, us_step // 2), where, st.integers(60, 400), st.integers(1, 4))]
     inject = st.one_of(st.none(), st.none(), *injections(30000, 12000))
-    # process 0 is the "leader": it usually holds some of its calls for long, and the schedule can give it a head start
-    # over everybody else (head_start_us is added to the start offset of processes 1..N-1), so that the others arrive
-    # while the leader sits inside one of its windows (directory being created, file open, temp file not yet renamed)
+    # process 0 is the "leader": it usually holds some of its calls for long.  With leader_first (and a hold at the entry
+    # of every mkdir / rename / fsync) the driver releases the leader alone, watches /proc/<pid>/syscall until the leader
+    # sits at the entry of its first held call, and only then releases everybody else: the others run through the
+    # window (directory seen missing and not yet created; temp file complete and not yet published) by construction,
+    # not by luck and not by the machine's speed.
     # One class per window kind, each frequent enough to occur several times in a quick run:
     #   mkdir held at entry    - the directory was seen missing, somebody else creates it meanwhile
     #   openat held at exit / write held at entry - a file has just been created (empty) and is not written yet
     #   fsync, rename held at entry - a complete temp file is not published yet
     lead_inject = st.one_of(
         st.none(),
-        st.builds(every, st.just("mkdir"), st.integers(30000, 80000), st.just("enter")),
+        st.builds(every, st.just("mkdir"), st.integers(100000, 500000), st.just("enter")),
         st.builds(stepped, st.just("openat"), st.integers(5000, 40000), st.just("exit"), st.integers(30, 60), st.just(1)),
         st.builds(stepped, st.just("write"), st.integers(5000, 40000), st.just("enter"), st.integers(20, 40), st.just(1)),
-        st.builds(every, st.sampled_from(["rename", "fsync"]), st.integers(20000, 80000), st.just("enter")),
-        st.builds(every, st.just("mkdir"), st.integers(30000, 80000), st.just("enter")))
+        st.builds(every, st.sampled_from(["rename", "fsync"]), st.integers(100000, 500000), st.just("enter")),
+        st.builds(every, st.just("mkdir"), st.integers(100000, 500000), st.just("enter")))
 
     def proc(inj):
         return st.fixed_dictionaries(dict(
@@ -68,10 +73,10 @@ def schedule_strategy():
             inject=inj))
     return st.fixed_dictionaries(dict(
         mode=st.sampled_from(list(cf.MODES)),
-        head_start_us=st.one_of(st.just(0), st.integers(2000, 25000), st.integers(2000, 25000)),
+        leader_first=st.sampled_from([True, True, False]),
         leader=proc(lead_inject),
         others=st.lists(proc(inject), min_size=1, max_size=15))).map(
-            lambda d: dict(mode=d["mode"], head_start_us=d["head_start_us"], procs=[d["leader"]] + d["others"]))
+            lambda d: dict(mode=d["mode"], leader_first=d["leader_first"], procs=[d["leader"]] + d["others"]))
 
 
 def proc_mode(sched, p):
@@ -89,8 +94,19 @@ def run_schedule(ctx, sched, sdir):
     os.makedirs(sdir)
     cache = os.path.join(sdir, "cache")          # one shared, empty cache directory (OCCA creates it)
     cclog = os.path.join(sdir, "cc.log")
-    r_fd, w_fd = os.pipe()
+    r_fd, w_fd = os.pipe()        # shared stdin of processes 1..N-1
+    r0_fd, w0_fd = os.pipe()      # stdin of the leader
+    fds = dict(r=r_fd, w=w_fd, r0=r0_fd, w0=w0_fd)
+
+    def close(k):
+        if fds.get(k) is not None:
+            try:
+                os.close(fds[k])
+            except OSError:
+                pass
+            fds[k] = None
     procs = []
+    held = None
     try:
         for i, p in enumerate(sched["procs"]):
             mode = proc_mode(sched, p)
@@ -110,30 +126,49 @@ def run_schedule(ctx, sched, sdir):
                        "-e", "inject=" + spec] + cmd
             so, se = os.path.join(sdir, "out%d.txt" % i), os.path.join(sdir, "err%d.txt" % i)
             fo, fe = open(so, "w"), open(se, "w")
-            pp = subprocess.Popen(cmd, env=ctx.env(cache, cclog, traced=bool(inj), extra=extra), stdin=r_fd, stdout=fo,
-                                  stderr=fe, start_new_session=True)
+            pp = subprocess.Popen(cmd, env=ctx.env(cache, cclog, traced=bool(inj), extra=extra),
+                                  stdin=(fds["r0"] if i == 0 else fds["r"]), stdout=fo, stderr=fe, start_new_session=True)
             fo.close()
             fe.close()
             procs.append((pp, so, se, mode, p))
-        os.close(r_fd)
-        r_fd = None
+        close("r")
+        close("r0")
         # wait until every process has set up its device and sits at the gate
+        pids = []
         for (pp, so, se, mode, p) in procs:
-            ok = False
+            pid = None
             for _ in range(MAX_POLLS):
                 try:
-                    if "READY" in open(so, errors="replace").read():
-                        ok = True
+                    mm = re.search(r"READY (\d+)", open(so, errors="replace").read())
+                    if mm:
+                        pid = int(mm.group(1))
                         break
                 except OSError:
                     pass
                 if pp.poll() is not None:
                     break
                 time.sleep(POLL)
-            if not ok:
+            if pid is None:
                 raise HarnessError("worker did not reach the gate: rc=%s %s" % (pp.poll(), open(se, errors="replace").read()[-500:]))
-        os.close(w_fd)          # EOF on the shared stdin releases all processes at once
-        w_fd = None
+            pids.append(pid)
+        inj0 = sched["procs"][0].get("inject")
+        two_stage = bool(sched.get("leader_first") and inj0 and inj0["syscall"] in SYSCALL_NR
+                         and inj0["where"] == "enter" and not inj0.get("when"))
+        close("w0")             # EOF on its stdin releases the leader
+        if two_stage:
+            held = False
+            want = "%d " % SYSCALL_NR[inj0["syscall"]]
+            for _ in range(HOLD_POLLS):
+                try:
+                    if open("/proc/%d/syscall" % pids[0]).read().startswith(want):
+                        held = True
+                        break
+                except OSError:
+                    break
+                if procs[0][0].poll() is not None:
+                    break
+                time.sleep(0.001)
+        close("w")              # EOF on the shared stdin releases all the others at once
         rcs = []
         for (pp, so, se, mode, p) in procs:
             try:
@@ -141,18 +176,14 @@ def run_schedule(ctx, sched, sdir):
             except subprocess.TimeoutExpired:
                 rcs.append("timeout")
     finally:
-        for fd in (r_fd, w_fd):
-            if fd is not None:
-                try:
-                    os.close(fd)
-                except OSError:
-                    pass
+        for k in list(fds):
+            close(k)
         for (pp, so, se, mode, p) in procs:
             if pp.poll() is None:
                 cf.kill_group(pp.pid)
                 pp.wait()
 
-    res = dict(ok=True, what="", overlap=cf.overlapping_kernel_compiles(cclog), logs="")
+    res = dict(ok=True, what="", overlap=cf.overlapping_kernel_compiles(cclog), logs="", held=held)
     bad = []
     for i, ((pp, so, se, mode, p), rc) in enumerate(zip(procs, rcs)):
         out = open(so, errors="replace").read()
@@ -228,10 +259,12 @@ def replay_file(ctx, path, wd, tag, times=3):
 
 
 RULE = ("case = schedule generated by Hypothesis: 2-16 worker processes, each with a start offset after a common release "
-        "(0-50 ms, skewed to 0; optionally a common head start of 2-25 ms for process 0, which usually holds its calls longest), 1-3 kernels out of {s0, s1 (string-built), f2, f3 (file-built, f3 with #include)}, a mode "
+        "(0-50 ms, skewed to 0), 1-3 kernels out of {s0, s1 (string-built), f2, f3 (file-built, f3 with #include)}, a mode "
         "(schedule mode, flipped for 1 in 5), generated sleeps before/after the real compiler, and optionally a strace "
         "delay injected at entry/exit of its mkdir/rename/fsync/openat/write/close calls; all share one empty cache directory and "
-        "are released at the same instant. Oracle: every process exits 0 with the model outputs; a follow-up process per "
+        "are released at the same instant - or, for 2 schedules in 3, process 0 (the leader, which holds every mkdir / rename / "
+        "fsync at entry for 0.1-0.5 s, or its openat/write calls for 5-40 ms) is released first and the others only when "
+        "/proc/<pid>/syscall shows the leader inside its first held call. Oracle: every process exits 0 with the model outputs; a follow-up process per "
         "mode rebuilds everything with 0 compiler invocations; no final-named file in the cache is incomplete. "
         "Non-trivial = at least two kernel compiles were open at the same time (order of start/end lines in the compiler "
         "wrapper log). Distinct = distinct schedule.")
@@ -306,6 +339,10 @@ def run(prop, tier, replay, t0):
             out.classes[npk] = out.classes.get(npk, 0) + 1
             if any(p.get("inject") for p in sched["procs"]):
                 out.classes["with_syscall_delay"] = out.classes.get("with_syscall_delay", 0) + 1
+            if r.get("held") is not None:
+                inj0 = sched["procs"][0]["inject"]
+                hk = "leader_%s_in_%s_when_others_start" % ("held" if r["held"] else "NOT_held", inj0["syscall"])
+                out.classes[hk] = out.classes.get(hk, 0) + 1
             if r["overlap"] >= 2:
                 out.nontrivial.add(key)
             if len(out.samples) < 5 and (r["overlap"] >= 2 or i == 1):
